@@ -280,6 +280,22 @@ def execute(p, res):
                     v("1d", "layout-agree-or-raise", f"member {i} ({m.tolist()[:8]}) as 1-D -> {r.tolist()[:8]} but as a batch of one -> {ref[i].tolist()[:8]}", {"member": i})
             except Exception:  # noqa: BLE001
                 res.rejected += 1
+    # rows that are proper fractions of a block although the tensor as a whole holds whole blocks: (2, n/2), (4, n/4), (n, 1) - there is no
+    # per-block evaluation such a layout could agree with, so it must be declined
+    if not is_2d_member and kind in ("encoder", "inverse", "decoder", "decoder-errors", "decoder-int32", "decoder-int64"):
+        for parts in (2, 4, nin):
+            if nin % parts or parts < 2 or nin // parts < 1 or (parts == nin and nin == 1):
+                continue
+            for src in ([pool[1], pool[min(2, len(pool) - 1)]] if parts != nin else [pool[1]]):
+                Xf = torch.stack([src, pool[0]]).reshape(2 * parts, nin // parts)
+                try:
+                    r = call(Xf)
+                except Exception:  # noqa: BLE001
+                    res.rejected += 1
+                    continue
+                res.ev(1, nontrivial=1, transitions=0)
+                v(f"({2 * parts},{nin // parts})", "layout-agree-or-raise", f"two blocks of length {nin} presented as {2 * parts} rows of {nin // parts} were answered with a tensor of shape {tuple(r.shape) if hasattr(r, 'shape') else type(r).__name__} instead of an error")
+                break
     # every ordered selection of 1..Bmax members
     Bmax = 3 if p["tier"] == "quick" else 4
     for B in range(1, Bmax + 1):
